@@ -89,9 +89,12 @@ def load_all(specdir):
             raise SpecError('unit %s is like unknown unit %s' % (u['name'], u['like']))
         resolve(base, stack + (u['name'],))
         own_contract = 'contract' in u['sections']
+        own_loops = any(k.startswith('loop ') for k in u['sections'])
         for k, v in base['sections'].items():
-            if own_contract and (k.startswith('loop ') or k.startswith('ghost ')):
-                continue     # a unit with its own contract brings its own loop contracts
+            if own_contract and not own_loops and (k.startswith('loop ') or k.startswith('ghost ')):
+                continue     # a different function: it brings its own loop contracts (or has no loops)
+            if own_contract and own_loops and k.startswith('loop '):
+                continue     # same loop structure, own loop contracts; ghost splices it does not redefine are inherited
             if k not in u['sections']:
                 for a, b in u.get('subst', {}).items():
                     v = v.replace(a, b)
@@ -99,7 +102,7 @@ def load_all(specdir):
                 u['sections'][k] = v
         for k in ('backend', 'flags', 'records', 'typemap', 'tu', 'filter', 'decl', 'records_tu', 'timeout', 'cost', 'self', 'callmap',
                   'enums', 'membermap', 'opmap', 'replace', 'uses', 'mode', 'kind', 'class', 'identity_methods', 'token_types',
-                  'zero_init_types', 'cellset_types', 'globals', 'enum_types', 'inline', 'byref_types', 'unwind', 'cap', 'abstract', 'static', 'members', 'triage_cap'):
+                  'zero_init_types', 'cellset_types', 'globals', 'enum_types', 'inline', 'byref_types', 'unwind', 'cap', 'abstract', 'static', 'members', 'triage_cap', 'select_kind', 'select_mentions', 'select_excludes', 'select_pick', 'select_ops', 'through_kind', 'through_mentions', 'force_self', 'free_locals_nondet', 'string_as_vector'):
             if k not in u and k in base:
                 u[k] = base[k]
         done.add(u['name'])
